@@ -2,7 +2,7 @@
    used by the correspondence checks C35/C36 (cases evaluated by vm_compute).
    The string formats are mirrored by checks/raft_common.py (obs_str). *)
 From Coq Require Import String.
-From VP Require Import Base.Tactics Base.Render Raft.Model.
+From VP Require Import Base.Tactics Base.Render Raft.Model Raft.Sync.
 Open Scope string_scope.
 Open Scope Z_scope.
 
@@ -173,4 +173,14 @@ Definition sm_case (es : list entry) : string :=
   let v := sm_apply es smv0 in
   if sm_panics es smv0 then "PANIC"
   else "A" ++ str_ologid (sv_applied v) ++ "|M" ++ str_smember (sv_member v) ++ "|T" ++ str_state (sv_state v).
+
+(* C38: sync_from_raft on a coordinator view; workers with status and (sorted) assigned pipelines, keys of the rest *)
+Definition str_status (s : wstatus) : string :=
+  match s with SReady => "ready" | SUnhealthy => "unhealthy" | SDraining => "draining" | SRegistering => "registering" end.
+Definition sorted_strs (l : list str) : string := join "." (map (fun p => str_of_N (fst p)) (sort_kv (map (fun x => (x, "")) l))).
+Definition str_view (v : view) : string :=
+  "W(" ++ str_map (fun w => str_status (vw_status w) ++ "/" ++ sorted_strs (vw_assigned w)) (v_workers v) ++
+  ")G(" ++ sorted_strs (map fst (v_groups v)) ++ ")C(" ++ str_map (fun c => str_of_N (cn_type c)) (v_connectors v) ++
+  ")P(" ++ (match v_policy v with Some _ => "1" | None => "0" end) ++ ")".
+Definition sync_case (rs : cstate) (v : view) : string := str_view (sync rs v).
 
